@@ -264,6 +264,9 @@ func cmdCheck(args []string) int {
 	tSolve := time.Since(t0).Seconds() - tLoad - tGen
 
 	rep := buildReport(ck, prop, *tier, seed, results, *verbose)
+	if *only == "" {
+		rep.Bounded = runBounded(ck, prop, *tier)
+	}
 	rep.Times = map[string]float64{"load_s": tLoad, "vcgen_s": tGen, "solve_s": tSolve}
 	rep.Wall = time.Since(t0).Seconds()
 	for _, fr := range results {
